@@ -258,6 +258,9 @@ func byteStrings(thorough bool) [][]byte {
 	}
 	for _, n := range lens {
 		for _, f := range []byte{0x00, 0x01, 0x7f, 0x80, 0xff} {
+			if n > 1<<20 && f != 0x00 && f != 0xff {
+				continue
+			}
 			out = append(out, rep(f, n))
 		}
 	}
